@@ -2,6 +2,7 @@
     input  (op seq wr_table)   wr_table = ((us us_written) ...)
     op 1   writer glue          -> (ties (res (scales oldest first) tsigs ksigs instrs))
     op 2   write ; channel ; read -> (status pre_ok ties notes ccs bends tempos tsigs ksigs total tpq)
+    op 4   (4 seq tbl (idx key)|()) reader glue on the writer's object, optional bad key -> as op 2 / (0)
     op 3   as op 2 with the code before notes/C03-fix-2.diff (instrument 0 reuse) — not used by the check *)
 From Coq Require Import ZArith List Bool.
 From NS Require Import Base.Sx Base.NoteSeq Gen.G03 Model.TempoMap Model.MidiGlue.
@@ -63,6 +64,27 @@ Definition run_rt (fix9 : bool) (s : seq) (wr : Z -> Z) : sx :=
   | Some o => L ([I 1; oB (chan_pre p); I (count_ties s)] ++ oOut o)
   end.
 
+(** reader glue alone, on the PrettyMIDI object the writer built (no channel);
+    [bad = (idx key)] overwrites the key number of the idx-th key signature first
+    (rejection path: key_number // 12 outside {0, 1} is a MIDIConversionError) *)
+Fixpoint set_key (i : nat) (k : Z) (l : list pksig) : list pksig :=
+  match l, i with
+  | [], _ => []
+  | x :: r, O => mkPksig k (pks_time x) :: r
+  | x :: r, S j => x :: set_key j k r
+  end.
+
+Definition run_readpm (s : seq) (bad : sx) : sx :=
+  let p := write s in
+  let ks := match xL bad with
+            | [] => pm_ksigs p
+            | _ => set_key (xN (xnth 0 bad)) (xZ (xnth 1 bad)) (pm_ksigs p)
+            end in
+  match read (mkPm (pm_res p) (pm_u0 p) (pm_scales p) (pm_tsigs p) ks (pm_instrs p)) with
+  | None => L [I 0]
+  | Some o => L ([I 1; I 1; I (count_ties s)] ++ oOut o)
+  end.
+
 Definition run (x : sx) : sx :=
   let s := xSeq (xnth 1 x) in
   let wr := lookup (xTable (xnth 2 x)) in
@@ -70,5 +92,6 @@ Definition run (x : sx) : sx :=
   | 1 => L [I (count_ties s); oPm (write s)]
   | 2 => run_rt true s wr
   | 3 => run_rt false s wr
+  | 4 => run_readpm s (xnth 3 x)
   | _ => oErr 1
   end.
